@@ -279,6 +279,11 @@ func (_ *StorageSmartContract) getStakePool(providerType spenum.Provider, provid
 func getStakePoolAdapter(
 	providerType spenum.Provider, providerID string, balances chainstate.CommonStateContextI,
 ) (sp stakepool.AbstractStakePool, err error) {
+	if providerType != spenum.Blobber && providerType != spenum.Validator {
+		// the record key is built from the provider type: never reach into the
+		// stake pools of another contract (authorizer:stakepool:<id>)
+		return nil, fmt.Errorf("unsupported provider type %s", providerType)
+	}
 	pool, err := getStakePool(providerType, providerID, balances)
 	if err != nil {
 		return nil, err
